@@ -225,7 +225,9 @@ pub fn replay_case(replay: &Json) -> Result<(Case, Option<Finding>), String> {
         Built::ParseRejected(e) => return Err(format!("program no longer parses: {}", e)),
     };
     let subcheck = replay.get("subcheck").and_then(|s| s.as_str()).unwrap_or("");
-    let f = if subcheck.starts_with("read-only-evaluation-observable-through-clone") {
+    let f = if subcheck.starts_with("read-only-string-entry-depends-on-previous-evaluation") {
+        crate::seam::check_whitespace_twin(&case, src.as_deref(), &mut cx)
+    } else if subcheck.starts_with("read-only-evaluation-observable-through-clone") {
         crate::seam::check_witness_clone(&case, &tree, &mut cx)
     } else if subcheck.starts_with("empty-context") || subcheck.starts_with("storeless") {
         crate::seam::check_storeless(&case, &tree, src.as_deref(), &mut cx)
@@ -390,8 +392,8 @@ pub struct Tier {
 
 pub fn tier_runs(prop: Prop, tier: &str) -> u64 {
     let base = match (prop, tier) {
-        (Prop::C08, "thorough") => 3_000_000,
-        (Prop::C11, "thorough") => 1_500_000,
+        (Prop::C08, "thorough") => 15_000_000,
+        (Prop::C11, "thorough") => 8_000_000,
         (Prop::C08, _) => 60_000,
         (Prop::C11, _) => 30_000,
     };
@@ -458,6 +460,7 @@ pub fn check(prop: Prop, tier: &str, exe: &Path) -> i32 {
             "c11.empty_context_evaluations",
             "c11.nostore_context_evaluations",
             "c11.witness_clone_checked",
+            "c11.whitespace_twin_checked",
             "c11.relational_checked",
         ]);
     }
